@@ -117,7 +117,7 @@ GRID = sorted({k * math.pi / 4 for k in range(-8, 9)} | {k * math.pi / 3 for k i
 
 
 def run(ctx):
-    lw = setup(ctx)
+    lw = setup(ctx, warm=False)
     install_gate_monitors(lw)
     q = lw.qubit
     rng = ctx.rng
